@@ -95,8 +95,19 @@ def doc_tokens(t):
     return out
 
 
-def doc_xml(t):
+def doc_xml(t, strip=None):
+    """strip: None, or the set of element names (or {"*"}) declared in xsl:strip-space — whitespace-only text nodes are
+    then put between the children of exactly those elements (never next to a text node), so that the document *after*
+    stripping is the tree `t`"""
     out = []
+
+    def ws(n, i):
+        if strip is None or n[0] != "E" or not ("*" in strip or n[1] in strip):
+            return ""
+        ks = n[3]
+        left_text = i > 0 and ks[i - 1][0] == "T"
+        right_text = i < len(ks) and ks[i][0] == "T"
+        return "" if (left_text or right_text) else (" " if (i + len(ks)) % 2 else "\n  ")
 
     def go(n):
         if n[0] == "R":
@@ -108,10 +119,12 @@ def doc_xml(t):
                 out.append(' xmlns:zz="urn:zz"')
             for a, v in n[2]:
                 out.append(' %s="%s"' % (a, v))
-            if n[3]:
+            if n[3] or ws(n, 0):
                 out.append(">")
-                for k in n[3]:
+                for i, k in enumerate(n[3]):
+                    out.append(ws(n, i))
                     go(k)
+                out.append(ws(n, len(n[3])))
                 out.append("</%s>" % n[1])
             else:
                 out.append("/>")
@@ -225,16 +238,16 @@ def gen_path(r):
         return "/"
     n = r.weighted([(1, 10), (2, 4), (3, 1)])
     steps = [gen_elem_step(r) for _ in range(n - 1)] + [gen_last_step(r)]
+    # `//` between any two steps (the matcher backtracks over the ancestors since /repo commit 3a0cdb4; before it,
+    # DESIGN.md section 6 item 16, only the first separator of a relative pattern was generated as `//`)
+    s = steps[0]
+    for st in steps[1:]:
+        s += ("//" if r.chance(1, 4) else "/") + st
     if k == "rel":
-        s = steps[0]
-        for i, st in enumerate(steps[1:]):
-            # `//` only as the first separator of a relative pattern: Xalan's matcher does not backtrack over
-            # ancestors when steps remain to the left of a `//` (DESIGN.md section 6 item 16, property C09)
-            s += ("//" if (i == 0 and r.chance(1, 4)) else "/") + st
         return s
     if k == "abs":
-        return "/" + "/".join(steps)
-    return "//" + "/".join(steps)
+        return "/" + s
+    return "//" + s
 
 
 def gen_pattern(r):
@@ -312,6 +325,9 @@ def gen_case(r, cid, big=False):
     calls = r.shuffle(calls)
     rtf = [k for k in range(1, ndocs) if r.chance(1, 3)]
     case = {"id": cid, "docs": docs, "sheets": sheets, "decls": decls, "calls": calls, "rtf": rtf}
+    if r.chance(1, 5):
+        # xsl:strip-space: the parsed documents carry whitespace-only text nodes exactly where they are stripped
+        case["strip"] = ["*"] if r.chance(1, 2) else r.shuffle(ELEMS)[: r.range(1, 3)]
     if r.chance(1, 12):
         # error scenario: a name no module declares (or no declaration at all)
         if r.chance(1, 4):
@@ -320,6 +336,17 @@ def gen_case(r, cid, big=False):
         else:
             c = dict(r.choice(calls)); c["name"] = r.choice(UNDECLARED)
             case["calls"] = case["calls"][: r.below(len(calls) + 1)] + [c]
+    if r.chance(1, 40):
+        # key() inside use / match: XSLT 1.0 only forbids circular definitions, Xalan rejects every such declaration when
+        # the stylesheet is compiled ("… cannot contain a call to the key() function") — the transformation must fail
+        # with that error rather than build a table (KeyTable would otherwise recurse into itself)
+        ds = case["decls"]
+        nm = ds[0][1] if ds else "k"
+        if r.chance(1, 2):
+            case["decls"] = ds + [(0, nm, "a", "count(key('%s',@x))" % lex_name(None, nm))]
+        else:
+            case["decls"] = ds + [(0, nm, "a[key('%s','u')]" % lex_name(None, nm), "@x")]
+        case["expect_compile_error"] = True
     return case
 
 
@@ -391,6 +418,8 @@ def render_sheet(case, sid):
         out.append('<xsl:key name="%s" match="%s" use="%s"/>' % (lex_name(None, name, i + 1), pat, use))
     if sid == 0:
         out.append('<xsl:output method="text"/>')
+        if case.get("strip"):
+            out.append('<xsl:strip-space elements="%s"/>' % " ".join(case["strip"]))
         nd = len(case["docs"])
         out.append('<xsl:variable name="D0" select="/"/>')
         for k in range(1, nd):
@@ -451,7 +480,7 @@ def request_lines(case):
             ls.append("call %d %s ns %d %s" % (c["doc"], c["name"], c["argdoc"], c["pat"]))
     for k, d in enumerate(case["docs"]):
         if k not in case.get("rtf", []):
-            ls.append("file %s %s" % ("main.xml" if k == 0 else "d%d.xml" % k, hexs(doc_xml(d))))
+            ls.append("file %s %s" % ("main.xml" if k == 0 else "d%d.xml" % k, hexs(doc_xml(d, set(case["strip"]) if case.get("strip") else None))))
     for (sid, _, _) in case["sheets"]:
         ls.append("file %s %s" % (module_file(sid), hexs(render_sheet(case, sid))))
     ls.append("run main.xsl main.xml")
